@@ -150,3 +150,10 @@ Fixpoint iter_rposition (p : Z -> bool) (l : list Z) : option Z :=
       | None => if p x then Some 0 else None
       end
   end.
+
+(* `iter.fold(init, g)` over an iterator of Uint values (given as a list) *)
+Fixpoint fold_outcome {A X : Type} (g : A -> X -> outcome A) (l : list X) (acc : A) : outcome A :=
+  match l with
+  | [] => Val acc
+  | x :: t => do r <- g acc x ; fold_outcome g t r
+  end.
